@@ -69,6 +69,20 @@ def local_points(s, rng, n):
         for z in range(-fs * pd, fs * pd + 1):
             pts.add(((0, 0, z), pd))
             pts.add(((z, 0, 0), pd))
+    if s["kind"] in ("cone", "cylinder"):
+        # rim / apex neighbourhoods at finer resolution (1/8, 1/64): small insets from the rim of the base (cone: z = 0,
+        # cylinder: z = +-h/2) and from the apex, in four azimuths
+        r, h = s["r"], s["h"]
+        for pd in (8, 64):
+            for a in (1, 2, 3, 5, 9):
+                for b in (1, 2, 4):
+                    feats = [(r * pd - a, b), (r * pd + a, b), (r * pd - a, -b)] if s["kind"] == "cone" else \
+                            [(r * pd - a, h * pd // 2 - b), (r * pd + a, h * pd // 2 - b), (r * pd - a, h * pd // 2 + b), (r * pd - a, -(h * pd // 2 - b))]
+                    if s["kind"] == "cone":
+                        feats += [(a, h * pd - b), (a, h * pd + b)]
+                    for rho, z in feats:
+                        for q in ((rho, 0, z), (0, rho, z), (-rho, 0, z), (0, -rho, z)):
+                            pts.add((q, pd))
     if s["kind"] == "hull":
         for v in s["V"]:
             pts.add((tuple(v), 1))
